@@ -444,6 +444,45 @@ let hexlist_dot (l : n list list) : string =
 let recs_of (s : string) : n list list =
   if s = "-" || s = "" then [] else List.map (fun x -> if x = "." then [] else bytes_of_hex x) (String.split_on_char ',' s)
 
+(* ---- PM cases: the byte-level models of the handshake_messages.go parsers, field by field -------------------------- *)
+let u16list_dot (l : n list) : string =
+  match l with [] -> "-" | _ -> String.concat "." (List.map (fun x -> Printf.sprintf "%04x" (int_of_n x)) l)
+let b01 (b : bool) : string = if b then "1" else "0"
+let hex2 (x : n) = Printf.sprintf "%02x" (int_of_n x)
+
+let pm_out (show : 'a -> string list) (o : 'a outcome) : string =
+  match o with
+  | Ok r -> String.concat " " ("ok" :: show r)
+  | Err _ -> "err" | Panic -> "PANIC" | Hang -> "HANG"
+
+let run_pm (typ : string) (flag : string) (hex : string) : string =
+  let data = bytes_of_hex hex in
+  let fl = (flag = "1") in
+  match int_of_string typ with
+  | 1 ->
+    pm_out (fun m ->
+      [hex4 m.f_vers; hex_of_bytes m.f_random; hex_of_bytes m.f_sid; u16list_dot m.f_suites; hex_of_bytes m.f_comp;
+       b01 m.f_npn; hex_of_bytes m.f_sni; b01 m.f_ocsp; u16list_dot m.f_curves; hex_of_bytes m.f_points;
+       b01 m.f_ticket_supported; hex_of_bytes m.f_ticket; u16list_dot m.f_sigalgs; b01 m.f_reneg_supported;
+       hex_of_bytes m.f_reneg; hexlist_dot m.f_alpn; b01 m.f_scts]) (clientHello_unmarshal data)
+  | 2 ->
+    pm_out (fun m ->
+      [hex4 m.g_vers; hex_of_bytes m.g_random; hex_of_bytes m.g_sid; hex4 m.g_suite; hex2 m.g_comp;
+       b01 m.g_npn; hexlist_dot m.g_protos; b01 m.g_ocsp; b01 m.g_ticket; b01 m.g_reneg_supported;
+       hex_of_bytes m.g_reneg; hex_of_bytes m.g_alpn; hexlist_dot m.g_scts]) (serverHello_unmarshal data)
+  | 4 -> pm_out (fun t -> [hex_of_bytes t]) (newSessionTicket_unmarshal data)
+  | 11 -> pm_out (fun l -> [hexlist_dot l]) (certificate_unmarshal data)
+  | 12 -> pm_out (fun k -> [hex_of_bytes k]) (serverKeyExchange_unmarshal data)
+  | 13 -> pm_out (fun ((types, algs), cas) -> [hex_of_bytes types; u16list_dot algs; hexlist_dot cas])
+            (certificateRequest_unmarshal fl data)
+  | 14 -> pm_out (fun _ -> []) (serverHelloDone_unmarshal data)
+  | 15 -> pm_out (fun (alg, sg) -> [hex4 alg; hex_of_bytes sg]) (certificateVerify_unmarshal fl data)
+  | 16 -> pm_out (fun c -> [hex_of_bytes c]) (clientKeyExchange_unmarshal data)
+  | 20 -> pm_out (fun v -> [hex_of_bytes v]) (finished_unmarshal data)
+  | 22 -> pm_out (fun (t, r) -> [hex2 t; hex_of_bytes r]) (certificateStatus_unmarshal data)
+  | 67 -> pm_out (fun p -> [hex_of_bytes p]) (nextProto_unmarshal data)
+  | _ -> "SKIP"
+
 let handle (f : string array) : string =
   match f.(0) with
   | "S" -> run_script f.(2) f.(3) f.(4)
@@ -454,6 +493,7 @@ let handle (f : string array) : string =
   | "AS" -> run_as f.(2) f.(3) f.(4)
   | "AC" -> run_ac f.(2) f.(3) f.(4)
   | "AM" -> run_am f.(2) f.(3) f.(4) f.(5) f.(6) f.(8)
+  | "PM" -> run_pm f.(2) f.(3) (if Array.length f > 4 then f.(4) else "-")
   | "PK" ->
     (match ecc_ckx_prefix (bytes_of_hex f.(2)) with
      | Ok _ -> if f.(3) = "1" then "ok" else "any"
